@@ -4,10 +4,11 @@ Theorems: coq/properties/C17.v (soundness of the static checker `guarded_b` for 
 re-proved against coq/generated/OverwriteGen.v, which `regenerate` re-translates from the Python AST of the
 repository under test on every run).  Dynamic side: the configuration space of the property's quantifier is
 finite and is enumerated exhaustively on the real code (every writer x str / Path / handle x exists / not x
-7 answers x confirm on / off, builtins.input scripted), each run judged (a) directly against the property
+7 answers x confirm on / off, existing targets with content or zero-byte, builtins.input scripted), each run judged (a) directly against the property
 text and (b) against the prediction of the re-translated abstract program evaluated in Coq (prompts, files
 written, files changed); plus end-to-end runs of every output option of evo_ape / evo_rpe / evo_traj / evo_res
-/ evo_config generate.
+/ evo_config generate, and of all output options of a command at once next to its other switches (--ignore_title,
+--use_filenames, --merge, --align_origin, --all_pairs, --ref, --silent ...).
 """
 import builtins
 import io
@@ -52,8 +53,15 @@ THOROUGH_ANSWERS = ["yy", "N", "\ty", "\uff59", "y.", "1", "true", "ok"]
 SENTINEL = b"PRE-EXISTING USER DATA \x00\x01\n"
 
 
+_GEN_FAILURES = []
+
+
 def regenerate(ctx):
+    """Fail-closed translation errors are kept in _GEN_FAILURES and reported by run() *after* the differential run (the
+    driver lists regenerate()'s own return value first): when the same edit also has a concrete failing input, that
+    input heads the report and the broken tie follows it."""
     failures = []
+    del _GEN_FAILURES[:]
     try:
         src, meta = pyast_fx.generate(common.REPO)
         META.clear()
@@ -75,7 +83,8 @@ def regenerate(ctx):
             os.makedirs(os.path.dirname(GEN), exist_ok=True)
             with open(GEN, "w") as f:
                 f.write(src)
-    return failures
+    _GEN_FAILURES.extend(failures)
+    return []
 
 
 # ------------------------------------------------------------------ implementation side (API level)
@@ -182,7 +191,7 @@ def run_api(case):
         for k, ex in enumerate(case["exists"]):
             if ex:
                 with open(targets[k], "wb") as f:
-                    f.write(SENTINEL)
+                    f.write(b"" if case.get("empty") else SENTINEL)   # "empty": an existing zero-byte file
         before = {p: (open(p, "rb").read() if os.path.isfile(p) else None) for p in targets}
         decoys = [targets[0] + sfx for sfx in case.get("decoys", [])]   # pre-existing neighbours: must never be touched
         for p in decoys:
@@ -309,6 +318,26 @@ CLI_OPTIONS = [
     ("res_serialize_plot", "res", ["res1.zip", "res2.zip"], ["--serialize_plot", "plot.evo"]),
     ("config_generate", "config", ["generate", "--align", "--plot_mode", "xz"], ["-o", "cfg.json"]),
 ]
+# the same output options next to every other (non-output) switch of the command: the property speaks of *whenever* a
+# command is asked to save to an existing path with warnings not disabled. One run asks for all outputs of the command.
+_APE_OUT = ["--save_results", "res.zip", "--save_plot", "plot.pdf", "--serialize_plot", "plot.evo"]
+_RES_OUT = ["--save_table", "table.csv", "--save_plot", "plot.pdf", "--serialize_plot", "plot.evo"]
+_TRAJ_OUT = ["--save_as_tum", "--save_table", "table.csv", "--save_plot", "plot.pdf", "--serialize_plot", "plot.evo"]
+CLI_FLAG_VARIANTS = [
+    # (name, app, fixed args incl. the extra switches, output options, in the quick tier)
+    ("res_all_ignore_title", "res", ["res1.zip", "res2.zip", "--ignore_title"], _RES_OUT, True),
+    ("res_all_use_filenames", "res", ["res1.zip", "res2.zip", "--use_filenames"], _RES_OUT, True),
+    ("res_all_use_rel_time", "res", ["res1.zip", "res2.zip", "--use_rel_time"], _RES_OUT, True),
+    ("res_all_merge", "res", ["res1.zip", "res2.zip", "--merge"], _RES_OUT, True),
+    ("res_all_verbose_silent", "res", ["res1.zip", "res2.zip", "--ignore_title", "--use_filenames", "--silent"], _RES_OUT, False),
+    ("ape_all_origin_full", "ape", ["tum", "ref.txt", "est.txt", "--align_origin", "-r", "full"], _APE_OUT, True),
+    ("ape_all_verbose_angle", "ape", ["tum", "ref.txt", "est.txt", "--verbose", "-r", "angle_deg", "--plot_mode", "xz"], _APE_OUT, False),
+    ("rpe_all_pairs", "rpe", ["tum", "ref.txt", "est.txt", "--all_pairs", "--delta", "2", "-r", "angle_deg"], _APE_OUT, True),
+    ("rpe_all_silent", "rpe", ["tum", "ref.txt", "est.txt", "--silent", "--delta_unit", "m"], _APE_OUT, False),
+    ("traj_all_ref_origin", "traj", ["tum", "est.txt", "--ref", "ref.txt", "--align_origin", "--full_check"], _TRAJ_OUT, True),
+    ("traj_all_silent", "traj", ["tum", "est.txt", "ref.txt", "--silent"], _TRAJ_OUT, False),
+]
+CLI_ALL = CLI_OPTIONS + [v[:4] for v in CLI_FLAG_VARIANTS]
 _CLI_OUTPUTS = {}
 _RES_ZIPS = []
 
@@ -324,7 +353,7 @@ def cli_run(d, app, args, stdin_text):
 def cli_outputs(name):
     """which files an option creates (learned from one run in an empty directory)"""
     if name not in _CLI_OUTPUTS:
-        _, app, fixed, opt = next(o for o in CLI_OPTIONS if o[0] == name)
+        _, app, fixed, opt = next(o for o in CLI_ALL if o[0] == name)
         d = tempfile.mkdtemp(prefix="evo_c17c_")
         try:
             write_inputs(d)
@@ -339,8 +368,9 @@ def cli_outputs(name):
 
 def run_cli(case):
     name = case["option"]
-    _, app, fixed, opt = next(o for o in CLI_OPTIONS if o[0] == name)
+    _, app, fixed, opt = next(o for o in CLI_ALL if o[0] == name)
     outs = cli_outputs(name)
+    original = b"" if case.get("empty") else SENTINEL      # "empty": the existing targets are zero-byte files
     if not outs["files"]:
         return {"error": "the option created no file in the reference run (rc %s): %s" % (outs["rc"], outs["err"])}
     d = tempfile.mkdtemp(prefix="evo_c17c_")
@@ -349,14 +379,15 @@ def run_cli(case):
         if case["exists"]:
             for f in outs["files"]:
                 with open(os.path.join(d, f), "wb") as fh:
-                    fh.write(SENTINEL)
+                    fh.write(original)
         args = fixed + opt + (["--no_warnings"] if case["no_warnings"] else [])
         rc, out, err = cli_run(d, app, args, (case["answer"] + "\n") * 12)
         state = {}
         for f in outs["files"]:
             p = os.path.join(d, f)
             b = open(p, "rb").read() if os.path.isfile(p) else None
-            state[f] = "absent" if b is None else ("old" if b == SENTINEL else ("new" if len(b) > 0 else "empty"))
+            state[f] = "absent" if b is None else ("old" if (case["exists"] and b == original) or b == SENTINEL else
+                                                   ("new" if len(b) > 0 else "empty"))
         n_prompts = out.count("enter 'y' to overwrite")
         return {"rc": rc, "state": state, "n_prompts": n_prompts, "stderr": err[-300:] if rc != 0 else ""}
     finally:
@@ -537,6 +568,20 @@ def api_cases(ctx):
                         if pk == "handle" and (a != "n" or not ex):
                             continue
                         add(w, pk, [ex], [a], conf, **kw)
+    # the existing target is a zero-byte file (placeholder from touch / mkstemp, truncated earlier output): it exists, so
+    # the same confirmation is due and a declined overwrite leaves it (empty) as it was
+    for w, kw, handles in singles:
+        for pk in (["str"] if w == "main_config.generate" else ["str", "path"]):
+            for conf in (True, False):
+                if w == "main_config.generate" and not conf:
+                    continue
+                for a in (["n", "", "y"] if ctx.quick else ANSWERS):
+                    add(w, pk, [True], [a], conf, empty=True, **kw)
+    for variant, ext in (("png", ".png"), ("pdf_split", ".pdf")):
+        for ex in ((True, True), (True, False), (False, True)):
+            for ans in [("n", "n"), ("y", "n"), ("", "y")]:
+                add("PlotCollection.export", "str", [False] + list(ex), list(ans), True, ext=ext, variant=variant, nfig=2,
+                    empty=True)
     # output names without an extension, next to pre-existing files that differ only by an extension
     for w, kw in (("main_config.generate", {"ext": ""}), ("write_tum_trajectory_file", {"ext": ""}), ("save_res_file", {"ext": ""})):
         for ex in (True, False):
@@ -573,6 +618,22 @@ def cli_cases(ctx):
                     continue
                 for a in answers:
                     cases.append({"kind": "cli", "option": name, "exists": ex, "answer": a, "no_warnings": nw})
+    # every other switch of the commands next to all output options at once: existing targets, warnings enabled
+    for name, app, fixed, opt, in_quick in CLI_FLAG_VARIANTS:
+        if ctx.quick and not in_quick:
+            continue
+        for a in (["n", "y"] if ctx.quick else ["n", "y", "", "yes"]):
+            cases.append({"kind": "cli", "option": name, "exists": True, "answer": a, "no_warnings": False})
+        if not ctx.quick:
+            cases.append({"kind": "cli", "option": name, "exists": True, "answer": "n", "no_warnings": True})
+            cases.append({"kind": "cli", "option": name, "exists": False, "answer": "n", "no_warnings": False})
+    # existing zero-byte targets
+    quick_empty = ("traj_save_as_tum", "ape_save_results", "res_save_table", "rpe_save_plot", "config_generate")
+    for name, app, fixed, opt in CLI_OPTIONS:
+        if ctx.quick and name not in quick_empty:
+            continue
+        for a in (["n"] if ctx.quick else ["n", "", "y"]):
+            cases.append({"kind": "cli", "option": name, "exists": True, "answer": a, "no_warnings": False, "empty": True})
     return cases
 
 
@@ -637,7 +698,7 @@ def run(ctx, replay=None, proofs_ok=True):
            "opaque_conditions_unknown_to_harness": ambiguous,
            "call_sites": META.get("_sites"), "direct_writes_in_cli_modules": META.get("_direct"),
            "disagreements": stats["disagreements"]}
-    return {"failures": failures, "coverage": cov}
+    return {"failures": failures + list(_GEN_FAILURES), "coverage": cov}
 
 
 LEVEL_TEXT = ("Machine-checked theorem (Coq): a static checker `guarded_b` over an effect abstraction of a writer "
